@@ -397,6 +397,12 @@ type memStream struct {
 
 var errStream = errors.New("transport is closing")
 
+var at2Delay = func() time.Duration {
+	var us int
+	fmt.Sscan(os.Getenv("VERIF_AT2_DELAY_US"), &us)
+	return time.Duration(us) * time.Microsecond
+}()
+
 func (s *memStream) Context() context.Context { return s.ctx }
 
 func (s *memStream) Recv() (*pb.SubscribeRequest, error) {
@@ -476,7 +482,13 @@ func (s *memStream) Send(r *pb.SubscribeResponse) error {
 	if msg != nil {
 		atomic.AddInt64(&s.handed, 1) // committed now, whenever the goroutine below gets to run
 		if mode == 2 {
-			go func() { s.reqs <- msg }()
+			go func() {
+				// VERIF_AT2_DELAY_US (testing the harness itself): delay the racing trigger
+				if d := at2Delay; d > 0 {
+					time.Sleep(d)
+				}
+				s.reqs <- msg
+			}()
 		} else {
 			s.reqs <- msg
 			// Send returns only after the server has taken the trigger off the
@@ -519,8 +531,12 @@ func (s *memStream) take() []OResp {
 // from a timeout.  The subscriber is quiescent when Subscribe has returned and
 // no goroutine of the server is left running, or when the sender is parked in
 // the select of coalesce.Queue.Next (queue empty: a pending "inserted" token
-// would have made it runnable), no processSubscription walk is in flight, and
-// a polling goroutine, if any, is parked in the stream's Recv.
+// would have made it runnable) or at the closed gate of its stream, no
+// processSubscription walk is in flight, a polling goroutine, if any, is parked
+// in the stream's Recv, AND every request the client of a polling call has
+// committed to send (counted at the moment of commitment, also for a trigger
+// sent by a goroutine started inside Send) has been handed to the server by
+// Recv - read before and after the goroutine snapshot, unchanged in between.
 
 type gstate struct {
 	server        int // goroutines with a frame of subscribe.(*Server)
@@ -629,6 +645,23 @@ func settle(rpcs []*rpc, limit time.Duration) bool {
 		if started == 0 {
 			return true
 		}
+		// requests committed by the clients of polling calls and not yet handed to
+		// the server, read BEFORE the goroutine snapshot (and again after it)
+		pendingNow := func() (int64, bool) {
+			var sum int64
+			pend := false
+			for _, r := range rpcs {
+				if r.started && !r.returned() && r.req != nil && r.req.HasSub && r.req.Mode == 2 {
+					h, v := atomic.LoadInt64(&r.st.handed), atomic.LoadInt64(&r.st.recvd)
+					sum += h
+					if v < h {
+						pend = true
+					}
+				}
+			}
+			return sum, pend
+		}
+		h0, p0 := pendingNow()
 		g := goroutineStates()
 		if live == 0 {
 			if g.server == g.parkedPollers {
@@ -638,16 +671,14 @@ func settle(rpcs []*rpc, limit time.Duration) bool {
 			// ... and a polling call has been handed everything its client sent
 			// (a trigger issued from inside a Send, possibly by a goroutine that has
 			// not run yet, is "sent" from the moment the client committed to it)
-			still, pending := 0, false
+			still := 0
 			for _, r := range rpcs {
 				if r.started && !r.returned() {
 					still++
-					if r.req != nil && r.req.HasSub && r.req.Mode == 2 &&
-						atomic.LoadInt64(&r.st.recvd) < atomic.LoadInt64(&r.st.handed) {
-						pending = true
-					}
 				}
 			}
+			h2, p2 := pendingNow()
+			pending := p0 || p2 || h0 != h2
 			if still == live && !pending {
 				return true
 			}
